@@ -43,6 +43,9 @@ type Exec struct {
 	lemmaPkg   string
 	chans      map[string]*chanModel
 	views      map[string]*viewCells
+	iters      []iterInfo
+	iterByName map[string]*Cell
+	seq        int
 }
 
 type viewCells struct {
@@ -70,6 +73,7 @@ type Loop struct {
 	phis      []*ssa.Phi
 	headReach Term
 	latches   int
+	sharedPhis map[*ssa.Phi]bool
 }
 
 type Edge struct {
@@ -495,6 +499,11 @@ func (ex *Exec) mergeVals(conds []Term, vals []Val, what string) Val {
 		r = Ite(conds[i], vi, r)
 	}
 	out := Val{T: ex.vc.Define("m_"+what, r)}
+	for _, v := range vals {
+		if v.Shared {
+			out.Shared = true
+		}
+	}
 	sameOrigin := true
 	for _, v := range vals {
 		if !sameLV(v.Origin, first.Origin) {
@@ -760,6 +769,21 @@ func (f *Frame) cutHeader(n *Node, l *Loop) {
 	ns := f.mergeIn(n)
 	base := fmt.Sprintf("%s.loop.%s", f.oblBase(), l.key)
 	_ = base
+	// map range loops: the iterator's ghost set is readable as seen_<alias or key>
+	for _, ins := range n.blk.Instrs {
+		if nx, ok := ins.(*ssa.Next); ok && l.spec != nil {
+			if it, ok := ns.env[nx.Iter]; ok && it.Iter != nil {
+				if ex.iterByName == nil {
+					ex.iterByName = map[string]*Cell{}
+				}
+				name := l.spec.Alias
+				if name == "" {
+					name = strings.Split(l.spec.Key, "#")[0]
+				}
+				ex.iterByName[name] = it.Iter
+			}
+		}
+	}
 	// 1. invariants hold on entry
 	if l.spec != nil {
 		f.bindAlias(l, ns.names, func(phi *ssa.Phi) Val { return ns.env[phi] })
@@ -782,6 +806,13 @@ func (f *Frame) cutHeader(n *Node, l *Loop) {
 	// 3. havoc
 	for _, phi := range l.phis {
 		v := f.havocVal(phi.Type(), f.prefix+"h_"+sanitize(l.key)+"_"+phi.Name(), ns.reach)
+		if ns.env[phi].Shared {
+			v.Shared = true
+			if l.sharedPhis == nil {
+				l.sharedPhis = map[*ssa.Phi]bool{}
+			}
+			l.sharedPhis[phi] = true
+		}
 		ns.env[phi] = v
 		if phi.Comment != "" {
 			ns.names[phi.Comment] = v
@@ -997,6 +1028,9 @@ func (f *Frame) backEdge(l *Loop, e Edge) {
 	}
 	for _, phi := range l.phis {
 		v := f.operand(env, phi.Edges[pi])
+		if v.Shared && !l.sharedPhis[phi] {
+			ex.fail("alias discipline: loop variable %s becomes a re-sliced (shared) slice on the back edge", phi.Comment)
+		}
 		if phi.Comment != "" {
 			names[phi.Comment] = v
 		}
